@@ -75,12 +75,13 @@ class ExperimentEvaluator:
                 None,
                 code_holder,
             )
-            setattr(
-                self, "run_experiment", code_holder[fn_name]
-            )  # initialize the function
-            # remember the checksum only once the new function is in place, so a
-            # failed (or still running) recompile never counts as done
-            self._checksum = new_checksum
+            # install the function together with its checksum in ONE atomic step
+            # (a single dict.update): a failed or still running recompile never counts
+            # as done, and two threads recompiling different sources can never leave
+            # one's function paired with the other's checksum
+            self.__dict__.update(
+                run_experiment=code_holder[fn_name], _checksum=new_checksum
+            )
 
     def run_experiment(self, /, **kwargs):
         raise RuntimeError("Code was not loaded")
